@@ -196,9 +196,15 @@ pub fn oracle(op: &Opts, out: &mut dyn Write) {
     quiet_panics();
     let mut rng = Rng::new(op.seed ^ 0x5151);
     let cls = |n: &[u8], ua: bool| classify_impl(n, ua, false);
-    for i in 0..op.n {
-        let b = if i % 5 == 4 { gen_valid(&mut rng) } else { clean_base(&mut rng) };
-        let ua = rng.chance(1, 2);
+    // names handed over by the check (e.g. those on which model and implementation disagreed) come
+    // first; on them only the relations proved for EVERY name are evaluated (case, rotation,
+    // trailing junk of UTF-8 names, explicit/same-type, directory independence)
+    let given: Vec<Vec<u8>> = op.extra.iter().filter(|x| x.as_str() != "--names").map(|h| unhex(h)).collect();
+    let total = op.n + given.len() * 2;
+    for i in 0..total {
+        let from_given = i < given.len() * 2;
+        let b = if from_given { given[i / 2].clone() } else if i % 5 == 4 { gen_valid(&mut rng) } else { clean_base(&mut rng) };
+        let ua = if from_given { i % 2 == 0 } else { rng.chance(1, 2) };
         let base = cls(&b, ua);
         let h = hex(&b);
         // no panic, ever
@@ -219,7 +225,24 @@ pub fn oracle(op: &Opts, out: &mut dyn Write) {
         let rf = cls(&b, false);
         if rt == "Unparsable" { o(out, "explicit-unparsable", h.clone()); } else { o(out, "ok", String::new()); }
         if rf != "Unparsable" && rf != rt { o(out, "walk-vs-named-type", format!("{} {} {}", h, rf, rt)); } else { o(out, "ok", String::new()); }
-        if i % 5 == 4 || b.is_empty() { continue; }
+        if (!from_given && i % 5 == 4) || b.is_empty() { continue; }
+        if from_given {
+            for k in ["1", "old"] {
+                let mut n2 = b.clone(); n2.push(b'.'); n2.extend(k.as_bytes());
+                let r = cls(&n2, ua);
+                if r != base { o(out, "rotation", format!("{} +.{} {} vs {}", h, k, r, base)); } else { o(out, "ok", String::new()); }
+            }
+            let up = b.to_ascii_uppercase();
+            let lo = b.to_ascii_lowercase();
+            if cls(&up, ua) != base || cls(&lo, ua) != base {
+                o(out, "case", format!("{} is {}; upper-cased {}; lower-cased {}", h, base, cls(&up, ua), cls(&lo, ua)));
+            } else { o(out, "ok", String::new()); }
+            if std::str::from_utf8(&b).is_ok() {
+                let mut j = b.clone(); j.push(b'~');
+                if cls(&j, ua) != base { o(out, "junk-trailing", format!("{} {} vs {}", hex(&j), cls(&j, ua), base)); } else { o(out, "ok", String::new()); }
+            }
+            continue;
+        }
         // rotation suffixes
         for k in ["1", "20230101", "old", "BAK", "99999999999"] {
             let mut n2 = b.clone(); n2.push(b'.'); n2.extend(k.as_bytes());
